@@ -87,6 +87,10 @@ def main():
         else:
             ok = (rc == 1 and (tests_ok or e.get("tests_fail")))
             status = "caught" if rc == 1 else ("MISSED" if rc == 0 else "HARNESS-ERROR rc=%d" % rc)
+            if e.get("expect_missed") and rc in (0, 1):
+                # a documented blind spot of the quick tier (DESIGN 10): listed so that it is measured, not hidden
+                ok = tests_ok
+                status = "caught" if rc == 1 else "missed (documented blind spot)"
         if not tests_ok:
             status += " (repo tests FAIL: %s)" % tail
         if not ok:
